@@ -168,4 +168,7 @@ def run(ctx):
     for v in res.violations:
         uniq.setdefault(v["what"][:50], v)
     res.violations = list(uniq.values())
+    from . import kf_witnesses
+    kf_witnesses.run_witness(res, "C14-KF1", kf_witnesses.c14_module_attribute_variable,
+                             "a variable of an accepted module read through an attribute reference (module.VAR) is not tracked")
     return res
